@@ -785,4 +785,37 @@ theorem fc35_step_connect (s : Server) (hs : SyncInv s) (hw : WF s) (conn : Nat)
     rw [E1, (nextImmediate_core (P := fun _ => True) _ _).conn]
     omega
 
+/-! ### re-subscribing to a duplicate-free subscription map gives the same map -/
+
+theorem sp14_assocSet_fresh {α β} [DecidableEq α] (m : List (α × β)) (k : α) (v : β) (h : k ∉ m.map (·.1)) :
+    assocSet m k v = m ++ [(k, v)] := by
+  induction m with
+  | nil => rfl
+  | cons x rest ih =>
+    obtain ⟨k0, v0⟩ := x
+    have hne : ¬ k0 = k := fun e => h (by rw [e]; exact List.mem_cons_self)
+    have hr : k ∉ rest.map (·.1) := fun hm => h (List.mem_cons_of_mem _ hm)
+    simp only [assocSet, if_neg hne, ih hr, List.cons_append]
+
+theorem sp14_inheritSubs_append (l : List (Str × Sub)) : ∀ (acc : List (Str × Sub)),
+    (∀ fs ∈ l, fs.2.filter = fs.1) → ((acc ++ l).map (·.1)).Nodup → sp14_inheritSubs l acc = acc ++ l := by
+  induction l with
+  | nil => intro acc _ _; simp [sp14_inheritSubs]
+  | cons fs rest ih =>
+    intro acc hk hnd
+    have hfs : fs.2.filter = fs.1 := hk fs List.mem_cons_self
+    have hfresh : fs.1 ∉ acc.map (·.1) := by
+      intro hm
+      rw [List.map_append, List.nodup_append] at hnd
+      exact hnd.2.2 _ hm _ (by simp) rfl
+    show sp14_inheritSubs rest (assocSet acc fs.2.filter fs.2) = _
+    rw [hfs, sp14_assocSet_fresh acc fs.1 fs.2 hfresh]
+    have : acc ++ [(fs.1, fs.2)] ++ rest = acc ++ fs :: rest := by simp
+    rw [ih (acc ++ [(fs.1, fs.2)]) (fun x hx => hk x (List.mem_cons_of_mem _ hx)) (by rw [this]; exact hnd), this]
+
+theorem sp14_inheritSubs_eq (l : List (Str × Sub)) (hk : ∀ fs ∈ l, fs.2.filter = fs.1) (hnd : (l.map (·.1)).Nodup) :
+    sp14_inheritSubs l [] = l := by
+  have := sp14_inheritSubs_append l [] hk (by simpa using hnd)
+  simpa using this
+
 end Mochi.Broker
